@@ -143,7 +143,20 @@ func runC03(c *Ctx) {
 			if staticCallee(ci.Common()) != gr {
 				continue
 			}
-			nR++
+			// a site inside a helper counts once for every place the helper is used (one shared
+			// "apply this delete and announce what it removed" function called from both arms)
+			uses := 0
+			if host := ci.Parent(); host != GU && host.Parent() == nil {
+				for _, cc := range unitCalls {
+					if staticCallee(cc.Common()) == host {
+						uses++
+					}
+				}
+			}
+			if uses < 1 {
+				uses = 1
+			}
+			nR += uses
 			if selfAnnounce {
 				continue
 			}
@@ -611,16 +624,35 @@ func multiComplete(c *Ctx, a *cacheAnchors, rule string) {
 			}
 		}
 	}
+	// a same-package helper that applies one update / one delete (calls gnmiUpdate / gnmiRemove itself)
+	// stands for that call in the loop of its caller
+	wraps := func(g, target *ssa.Function) bool {
+		if g == nil || g == target || g.Pkg != a.GnmiUpdate.Pkg || len(g.Blocks) == 0 {
+			return g == target
+		}
+		for _, h := range withAnon(g) {
+			for _, ci := range callsIn(h) {
+				if staticCallee(ci.Common()) == target {
+					return true
+				}
+			}
+		}
+		return false
+	}
 	found := 0
 	for _, f := range cands {
 		var hu, hd *ssa.BasicBlock
 		for _, ci := range callsIn(f) {
-			switch staticCallee(ci.Common()) {
-			case a.gnmiUpdate:
+			cal := staticCallee(ci.Common())
+			if cal == nil || cal == f {
+				continue
+			}
+			if wraps(cal, a.gnmiUpdate) {
 				if h := loopHeaderOf(ci.Block()); h != nil {
 					hu = h
 				}
-			case a.gnmiRemove:
+			}
+			if wraps(cal, a.gnmiRemove) {
 				if h := loopHeaderOf(ci.Block()); h != nil {
 					hd = h
 				}
